@@ -62,6 +62,7 @@ func vhApplyMode(opt, bit cfgFlag, mode int) cfgFlag {
 
 // p: k (calls), aliases (0/1), n (content length)
 func VH_C18_Bits(p []int) {
+	vhPreMode = 2 // also with an error on record: the switches do not care
 	pre := vhArbitraryStack(p[2], 0, false, vhOptMask&^ronly, 2, 2)
 	cfg := pre.cfg
 	want := cfg.opt
@@ -130,6 +131,9 @@ func vhArbitraryCond(optMask cfgFlag) Condition {
 func VH_C18_CondBits(p []int) {
 	c := vhArbitraryCond((parens | nspad | nnest) &^ ronly)
 	cfg := c.condition.cfg
+	if nondetChoice(2) == 1 {
+		cfg.err = errorf("left behind by an earlier call") // the switches do not care
+	}
 	want := cfg.opt
 	for step := 0; step < p[0]; step++ {
 		which := nondetChoice(4)
@@ -189,6 +193,7 @@ func VH_C18_Log(p []int) {
 	var s Stack
 	var c Condition
 	if p[1] == 0 {
+		vhPreMode = 2
 		pre := vhArbitraryStack(0, 0, false, vhOptMask&^ronly, 0, 0)
 		s, cfg = pre.s, pre.cfg
 	} else {
@@ -343,6 +348,12 @@ func VH_C18_Text(p []int) {
 			if txt != "" {
 				// shown as given, whatever the case-folding option says
 				verifAssert(s.Kind() == txt, "symbol-shown-verbatim")
+			}
+			if len(p) > 2 && p[2] == 1 {
+				// given in pieces (runes and strings mixed), kept whole
+				s.SetSymbol('<', txt, '>', "!")
+				verifAssert(cfg.sym == "<"+txt+">!", "symbol-in-pieces")
+				s.SetSymbol(txt)
 			}
 			snap.sym = txt
 		} else {
